@@ -212,7 +212,7 @@ NOT_YET = {}
 # lean/EpsieModel/Generated/Source.lean) and proved equal to the hand-written model for all arguments.
 SOURCE_TIES = {
  'C01': 'EpsieProps/C01Source.lean: Chain._acceptance_ratio as translated = Chain.logAR/decision/accepted/ar, a uniform is consumed iff the decision is a draw; EpsieProps/C01SourceStep.lean: Chain.step as translated rejects a zero-prior proposal without consulting the acceptance routine and a rejected step re-records the current position, stats and blob; EpsieProps/C01SourceExt.lean: the same method translated over IEEE-extended values (EpsieModel/ExtLog.lean: -inf, +inf, nan) agrees with the rational kernel on finite inputs, never raises at beta = 0 whatever the likelihoods (vanishing likelihood accepted with the prior ratio), gives acceptance probability exactly 0 into a region of vanishing likelihood at beta > 0, and the pre-repair formula is nan there (pinned counterexample of repo fix 9ab5e82).',
- 'C03': 'EpsieProps/C03Source.lean: the hot-to-cold loop of swap_temperatures as translated = Swap.loop/Swap.sweep for every ladder length and uniform stream (loop invariant).',
+ 'C03': 'EpsieProps/C03Source.lean: the hot-to-cold loop of swap_temperatures as translated = Swap.loop/Swap.sweep for every ladder length and uniform stream (loop invariant); C03SourceSpec.lean: hence the translated loop computes the sequential adjacent-exchange specification; C03SourceExt.lean: the same loop translated over IEEE-extended values agrees with it on finite inputs, a state of vanishing likelihood at the hottest level of a strictly decreasing ladder is never swapped down (recorded ratio exactly 0, no nan, every uniform stream), and two vanishing likelihoods give a recorded nan without a swap (on record).',
  'C06': 'EpsieProps/C06Source.lean: Chain.clear and the scratch growth of BaseSampler.run as translated = Chain.clear / Chain.extendFor.',
  'C08': 'EpsieProps/C08SourceStep.lean: Chain.step as translated writes every scratch array exactly once at index len (blobs iff the chain has blobs) and an accepted step records the proposed point with the stats and blob of that evaluation; EpsieProps/C08Source.lean: BaseChain.__len__ and the index arithmetic / read set of Chain.__getitem__ as translated = Chain.len / Chain.getitem for every Python integer index.',
  'C09': 'EpsieProps/C09Source.lean + C09SourceApply.lean: sweep schedule, record and row indices, row count of the views, the row the annealer reads, and the apply block of swap_temperatures (one permutation for positions, stats, blobs, active sets; acceptance untouched; reset condition) as translated = the PTChain model; C09SourceSweep.lean: the translated sweep loop computes the sequential adjacent-exchange specification.',
